@@ -353,10 +353,18 @@ def run(ctx):
     rhm = ctx.rule('R-HANDLEMOVE', 'move assignment of Future / Promise / SharedPromise / Task never releases the state the '
                    'left-hand side held by a bare DecRef: it leaves in the right-hand side and meets its destructor',
                    minimum=6)
+    rac = ctx.rule('R-APICOVER', 'every public namespace-scope function template of the library is instantiated by some '
+                   'analysed unit (an entry nobody instantiates is checked by no rule; F14 did not even compile)',
+                   minimum=60)
+    ctx.guard(lambda: lib_core.check_api_cover(ctx, fbs, rac))
+    rso = ctx.rule('R-STOREOVER', 'typestate of the Result storage: a core whose constructor stored a Result destroys it '
+                   'before it stores another one (and never destroys without storing again)', minimum=8)
     rha = ctx.rule('R-HANDLEASSIGN', 'IntrusivePtr same-type move assignment swaps (the handles\' defaulted move '
                    'assignment relies on the moved-from destructor protocol)', minimum=4)
     for cfg, fb in sorted(fbs.items()):
         ctx.guard(lambda: lib_core.check_handle_assign(ctx, fb, rha))
+        if (ctx.guard(lambda: lib_core.check_store_over(ctx, fb, rso)) or 0) < 4:
+            ctx.guard(lambda: ctx.broken('R-STOREOVER: no method of a constructed-ready core (ReadyCore) found in %s' % cfg))
         if cfg == 'K17':
             from rules import lib_iptr
             ctx.guard(lambda: lib_iptr.check_handle_spec(ctx, fb, rhs))
